@@ -525,7 +525,7 @@ void MDSDRV_Data::add_pitch_vibrato(const char* s, bool extend, std::vector<uint
 
 	vibrato_depth += vibrato_base;
 	add_pitch_node(stringf("%f>%f:%d", vibrato_base, vibrato_depth, vibrato_rate).c_str(), extend, env_data);
-	add_pitch_node(stringf("%f>%f:%d", vibrato_depth, -vibrato_depth, vibrato_rate*2).c_str(), extend, env_data);
+	add_pitch_node(stringf("%f>%f:%lld", vibrato_depth, -vibrato_depth, (long long)vibrato_rate*2).c_str(), extend, env_data);
 	add_pitch_node(stringf("%f>%f:%d", -vibrato_depth, vibrato_base, vibrato_rate).c_str(), extend, env_data);
 }
 
